@@ -49,6 +49,7 @@ def _tiny_specs():
 
 
 TINY = _tiny_specs()
+MINITOP = dict(MINI, top_role=':ROOT', top_variable='root')
 TINY_REIF = {
     'TREIF1': {'roles': {':a': {}, ':x': {}, ':y': {}, ':b': {}}, 'normalizations': {}, 'reifications': [(':a', 'ra', ':x', ':y')]},
     'TREIF2': {'roles': {':a': {}, ':x': {}, ':y': {}, ':b': {}}, 'normalizations': {},
@@ -69,6 +70,8 @@ def names(kind='core'):
 def spec(name):
     if name == 'MINI':
         return MINI
+    if name == 'MINITOP':
+        return MINITOP
     if name in TINY:
         return TINY[name]
     if name in TINY_REIF:
@@ -94,8 +97,10 @@ def get(name):
         rm = RefModel(list(amr.roles), dict(amr.normalizations), list(amr.reifications), name=name)
     else:
         sp = spec(name)
-        pm = Model.from_dict({'roles': dict(sp['roles']), 'normalizations': dict(sp['normalizations']),
-                              'reifications': [tuple(r) for r in sp['reifications']]})
-        rm = RefModel(list(sp['roles']), dict(sp['normalizations']), [tuple(r) for r in sp['reifications']], name=name)
+        extra = {k: sp[k] for k in ('top_role', 'top_variable') if k in sp}
+        pm = Model.from_dict(dict({'roles': dict(sp['roles']), 'normalizations': dict(sp['normalizations']),
+                                   'reifications': [tuple(r) for r in sp['reifications']]}, **extra))
+        rm = RefModel(list(sp['roles']), dict(sp['normalizations']), [tuple(r) for r in sp['reifications']],
+                      top_role=sp.get('top_role', ':TOP'), name=name)
     _cache[name] = (pm, rm)
     return pm, rm
